@@ -185,6 +185,7 @@ func checkC15(c C15Case, rec *obs.Recorder) (viol *obs.Violation) {
 		where = "the authority section of String()"
 	}
 	var gf, gr, gc []string
+	var reparsed biscuit.ParsedBlock
 	for _, line := range printed {
 		pb, err := sharedParser.Block(line+";", nil)
 		if err != nil {
@@ -195,6 +196,14 @@ func checkC15(c C15Case, rec *obs.Recorder) (viol *obs.Violation) {
 			return obs.Violf("block text %q: printed element %q re-parses to an unusable term: %v", c.TC.Text, line, err)
 		}
 		gf, gr, gc = append(gf, f...), append(gr, r...), append(gc, ch...)
+		reparsed.Facts = append(reparsed.Facts, pb.Facts...)
+		reparsed.Rules = append(reparsed.Rules, pb.Rules...)
+		reparsed.Checks = append(reparsed.Checks, pb.Checks...)
+	}
+	// what was written is what is printed: a set literal keeps every written element
+	// (the library stores set literals as written, so e.g. [1, 2, 2].length() is 3)
+	if d := firstDiff("elements", blockMultiKeys(p1), blockMultiKeys(reparsed)); d != "" {
+		return obs.ViolK("unfaithful", "block text %q at position %d: what %s prints parses back to something else (set literals compared element by element): %s\nprinted: %q", c.TC.Text, pos, where, d, printed)
 	}
 	for _, d := range []string{firstDiff("facts", wf, gf), firstDiff("rules", wr, gr), firstDiff("checks", wc, gc)} {
 		if d != "" {
@@ -246,7 +255,7 @@ func drawC15(t *rapid.T) C15Case {
 	}
 	c.Pos = rapid.IntRange(0, n).Draw(t, "pos")
 	for tries := 0; ; tries++ {
-		c.TC = gen.DrawText(t, gen.TextCfg{Printable: true, MaxDepth: 5}, "block")
+		c.TC = gen.DrawText(t, gen.TextCfg{Printable: true, MaxDepth: 5, DupSets: true}, "block")
 		// at position 0 the bracketed lists of String() are unambiguous only with at most one element each
 		if c.Pos%(n+1) != 0 || (len(c.TC.Facts) <= 1 && len(c.TC.Rules) <= 1 && len(c.TC.Checks) <= 1) || tries > 3 {
 			if c.Pos%(n+1) == 0 && !(len(c.TC.Facts) <= 1 && len(c.TC.Rules) <= 1 && len(c.TC.Checks) <= 1) {
@@ -264,4 +273,68 @@ func TestC15(t *testing.T) {
 	rec.SetExtra("rule", "rapid block texts generated from the documented grammar restricted to the printable domain the property names (strings without quote / backslash / newline, non-negative integer literals, dates 1970-9999 at second granularity written in UTC, sets of non-string elements, no parameters), with random layout, expressions by precedence level with explicit parentheses and method calls; the parsed block is placed in a token at position 0-3 among other generated blocks (position 0 = authority, then with at most one fact, one rule and one check), optionally sealed. Oracle: every element line of Code()[k-1] (or the facts / rules / checks fields of the authority section of String()) parses back, and the concatenation equals the original parse structurally (sets as sets, dates as instants); String() and Code() are identical before and after serialize+unmarshal and never panic. Non-trivial = the block has an expression with two precedence levels, a method call or a grouping, a set or a date; distinct by (position, printed text).")
 	rec.SetExtra("assumptions", []string{"Code() prints later blocks only, one element per line; sets of strings print as symbol indexes and are outside the property's printable domain"})
 	harness.RunWith(t, harness.Spec[C15Case]{ID: "C15", Draw: drawC15, Check: checkC15}, rec)
+}
+
+// ---- multiset keys: like the structural keys, but a set literal keeps every written element ----
+
+func termMultiKey(t biscuit.Term) string {
+	if s, ok := t.(biscuit.Set); ok {
+		ks := make([]string, 0, len(s))
+		for _, e := range s {
+			ks = append(ks, termMultiKey(e))
+		}
+		sortStrings(ks)
+		return "{" + strings.Join(ks, ",") + "}"
+	}
+	lt, err := bridge.LiftTerm(t)
+	if err != nil {
+		return "?" + err.Error()
+	}
+	return lt.Key()
+}
+
+func predMultiKey(p biscuit.Predicate) string {
+	ks := make([]string, 0, len(p.IDs))
+	for _, t := range p.IDs {
+		ks = append(ks, termMultiKey(t))
+	}
+	return p.Name + "(" + strings.Join(ks, ",") + ")"
+}
+
+func ruleMultiKey(r biscuit.Rule) string {
+	parts := []string{predMultiKey(r.Head), "<-"}
+	for _, p := range r.Body {
+		parts = append(parts, predMultiKey(p))
+	}
+	for _, e := range r.Expressions {
+		var ops []string
+		for _, op := range e {
+			if v, ok := op.(biscuit.Value); ok {
+				ops = append(ops, termMultiKey(v.Term))
+			} else {
+				ops = append(ops, fmt.Sprintf("%T:%v", op, op))
+			}
+		}
+		parts = append(parts, "["+strings.Join(ops, " ")+"]")
+	}
+	return strings.Join(parts, " ")
+}
+
+// blockMultiKeys lists every element of a parsed block with sets kept as multisets.
+func blockMultiKeys(b biscuit.ParsedBlock) []string {
+	var out []string
+	for _, f := range b.Facts {
+		out = append(out, "fact "+predMultiKey(f.Predicate))
+	}
+	for _, r := range b.Rules {
+		out = append(out, "rule "+ruleMultiKey(r))
+	}
+	for _, c := range b.Checks {
+		var qs []string
+		for _, q := range c.Queries {
+			qs = append(qs, ruleMultiKey(q))
+		}
+		out = append(out, "check "+strings.Join(qs, " or "))
+	}
+	return out
 }
